@@ -276,8 +276,8 @@ def m1_cfg(maxlen, design, tabs, invs, emit=False):
 def run_m1(chk):
     """the design against the property + the wrong designs, concurrently"""
     jobs = {
-        "real-all": (m1_cfg(chk.pick(4, 5), "real", [2, 4], ["InvM1"]), 6),
-        "real-deep": (m1_cfg(chk.pick(5, 6), "real", [4], ["InvWrap"]), 8),
+        "real-all": (m1_cfg(chk.pick(4, 5), "real", [2, 4], ["InvM1"]), chk.pick(3, 5)),
+        "real-deep": (m1_cfg(chk.pick(5, 6), "real", [4], ["InvWrap"]), chk.pick(12, 10)),
         "witness-broken": (m1_cfg(3, "real", [4], ["NeverBroken"]), 1),
         "witness-dropped": (m1_cfg(3, "real", [4], ["NeverDropped"]), 1),
     }
@@ -324,7 +324,7 @@ def run_m1(chk):
 def enumerated_cases(E, chk):
     """M2: every class string TLC enumerates, made concrete, with every configuration (short strings) or a
     seeded selection of configurations (longer strings)"""
-    full_len, max_len, per_string = chk.pick((3, 5, 4), (4, 6, 5))
+    full_len, max_len, per_string = chk.pick((3, 5, 3), (4, 6, 5))
     behs, r = tlc.behaviours("MC_Wrap", cfg_text=m1_cfg(max_len, "real", [4], [], emit=True), tag="c02m2", timeout=3000)
     chk.add_tlc(r, "M2")
     strings = sorted({"".join(b["beh"]) for b in behs}, key=lambda x: (len(x), x))
